@@ -41,6 +41,9 @@ pub struct ItemSpec {
     pub keep_derives: Vec<String>,
     #[serde(default)]
     pub skip_rules: Vec<String>,
+    /// N14: explicit `panic!` is a deliberate abort
+    #[serde(default)]
+    pub abort_on_panic: bool,
     /// override id used in clauses.vspec / evidence
     pub id: Option<String>,
     /// rename the emitted fn (used when two impls define the same method name)
@@ -383,7 +386,7 @@ fn main() {
         let mut fired: BTreeMap<String, usize> = BTreeMap::new();
         let mut keep = unit.keep_derives.clone();
         keep.extend(spec.keep_derives.iter().cloned());
-        let normalized = match rules::normalize(&found.text, spec, &unit.global_subst, &keep, &mut fired) {
+        let (normalized, prefix, suffix) = match rules::normalize(&found.text, spec, &unit.global_subst, &keep, &mut fired) {
             Ok(t) => t,
             Err(Lost(m)) => die(&format!("{id}: {m}")),
         };
@@ -402,6 +405,7 @@ fn main() {
             &sha(&found.original)[..16],
             fired
         );
+        out.push_str(&prefix);
         let base_line = cur_line(&out);
         let spliced = match rules::splice(&normalized, spec, &id, cl, false, base_line) {
             Ok(s) => s,
@@ -409,6 +413,7 @@ fn main() {
         };
         out.push_str(&spliced.text);
         out.push('\n');
+        out.push_str(&suffix);
         for mut ob in spliced.obligations {
             ob["item"] = json!(id);
             obligations.push(ob);
